@@ -53,9 +53,21 @@ type measure struct {
 	Len    int    `json:"len"`
 	Calls  int    `json:"calls"`
 	Alloc  uint64 `json:"alloc"`
+	// Limit, when set, is the bound for this measurement (steady-state families: what the same
+	// small call costs on an object that never saw the large document, plus a fixed slack)
+	Limit uint64 `json:"limit,omitempty"`
 }
 
-func (m measure) bound() uint64 { return uint64(c20PerByte*m.Len + c20PerCall*m.Calls) }
+func (m measure) bound() uint64 {
+	if m.Limit > 0 {
+		return m.Limit
+	}
+	return uint64(c20PerByte*m.Len + c20PerCall*m.Calls)
+}
+
+// steadySlack is what a small call on an object with a history may allocate beyond what the same
+// call allocates on an object without that history, once three such calls have been made.
+const steadySlack = 16 << 10
 
 // allocDuring returns the bytes allocated by f (cumulative TotalAlloc delta; the collector stays on).
 func allocDuring(f func()) uint64 {
@@ -251,6 +263,121 @@ func shapeFamilies() []shapeFamily {
 		reused("reused-reader/deep-then-small-docs", func(n int) string { return rep("[", n) + rep("]", n) }, `[[1]]`),
 		reused("reused-reader/long-escaped-string-then-small-docs", func(n int) string { return `["` + rep(`\n`, n*4) + `"]` }, `["`+"\\"+`n"]`),
 	)
+	// steady state after a large document: the 4th..6th small call on the object with the history
+	// (minimum of the three) against the 4th..6th on an object without it. This decides "a reader
+	// / buffer that has once processed a large document does not make an unbounded number of later
+	// small documents expensive" with a bound that does not depend on the per-call constant.
+	steady := func(name string, big func(n int) string, bigCall func(big []byte, b *rjson.Buffer, vr *rjson.ValueReader), small string, smallCall func(small []byte, b *rjson.Buffer, vr *rjson.ValueReader)) shapeFamily {
+		return shapeFamily{name, func(n int) measure {
+			sd := []byte(small)
+			run := func(withBig bool) uint64 {
+				var b rjson.Buffer
+				var vr rjson.ValueReader
+				if withBig {
+					bigCall([]byte(big(n)), &b, &vr)
+				}
+				best := ^uint64(0)
+				for i := 0; i < 6; i++ {
+					a := allocDuring(func() { smallCall(sd, &b, &vr) })
+					if i >= 3 && a < best {
+						best = a
+					}
+				}
+				return best
+			}
+			fresh := run(false)
+			used := run(true)
+			return measure{Family: name, N: n, Len: len(sd), Calls: 1, Alloc: used, Limit: fresh + steadySlack}
+		}}
+	}
+	declArr := rjson.ArrayValueHandlerFunc(func([]byte) (int, error) { return 0, nil })
+	declObj := rjson.ObjectValueHandlerFunc(func(_, _ []byte) (int, error) { return 0, nil })
+	type bcall struct {
+		name string
+		f    func(d []byte, b *rjson.Buffer, vr *rjson.ValueReader)
+	}
+	bufBig := []bcall{
+		{"Valid", func(d []byte, b *rjson.Buffer, _ *rjson.ValueReader) { rjson.Valid(d, b) }},
+		{"SkipValueFast", func(d []byte, b *rjson.Buffer, _ *rjson.ValueReader) { rjson.SkipValueFast(d, b) }},
+		{"HandleArrayValues-decline", func(d []byte, b *rjson.Buffer, _ *rjson.ValueReader) { rjson.HandleArrayValues(d, declArr, b) }},
+	}
+	bufSmall := []bcall{
+		{"Valid", func(d []byte, b *rjson.Buffer, _ *rjson.ValueReader) { rjson.Valid(d, b) }},
+		{"SkipValue", func(d []byte, b *rjson.Buffer, _ *rjson.ValueReader) { rjson.SkipValue(d, b) }},
+		{"SkipValueFast", func(d []byte, b *rjson.Buffer, _ *rjson.ValueReader) { rjson.SkipValueFast(d, b) }},
+		{"HandleArrayValues-decline", func(d []byte, b *rjson.Buffer, _ *rjson.ValueReader) { rjson.HandleArrayValues(d, declArr, b) }},
+		{"HandleObjectValues-decline", func(d []byte, b *rjson.Buffer, _ *rjson.ValueReader) {
+			rjson.HandleObjectValues([]byte(`{"a":[1,{"b":2}]}`), declObj, b)
+		}},
+	}
+	for _, bg := range bufBig {
+		for _, sm := range bufSmall {
+			fams = append(fams, steady("steady-buffer/deep-"+bg.name+"-then-"+sm.name, func(n int) string { return rep("[", n) + rep("]", n) }, bg.f, `[[1],{"a":[2]}]`, sm.f))
+		}
+	}
+	vrBig := map[string]func(n int) string{
+		"big-object":          bigObject,
+		"big-array":           func(n int) string { return bigArray(n*4, "1") },
+		"deep":                func(n int) string { return rep("[", n) + rep("]", n) },
+		"long-escaped-string": func(n int) string { return `["` + rep(`\n`, n*4) + `"]` },
+		"big-array-of-objs":   func(n int) string { return bigArray(n, `{"a":1}`) },
+	}
+	vrSmall := []struct{ name, doc, fn string }{
+		{"small-object", `{"a":{"b":1}}`, "ReadValue"}, {"small-array", `[[1],2]`, "ReadValue"}, {"escaped", `["` + "\\" + `n"]`, "ReadValue"}, {"failing", `[1,`, "ReadValue"},
+		{"ReadObject-small", `{"a":1}`, "ReadObject"}, {"ReadArray-small", `[1,[2]]`, "ReadArray"}, {"ReadArray-null", `null`, "ReadArray"},
+	}
+	vrCall := func(fn string) func(d []byte, _ *rjson.Buffer, vr *rjson.ValueReader) {
+		return func(d []byte, _ *rjson.Buffer, vr *rjson.ValueReader) {
+			switch fn {
+			case "ReadObject":
+				vr.ReadObject(d)
+			case "ReadArray":
+				vr.ReadArray(d)
+			default:
+				vr.ReadValue(d)
+			}
+		}
+	}
+	for _, bn := range []string{"big-object", "big-array", "deep", "long-escaped-string", "big-array-of-objs"} {
+		for _, sm := range vrSmall {
+			for _, bigFn := range []string{"ReadValue", "ReadArray"} {
+				if bigFn == "ReadArray" && bn == "big-object" {
+					bigFn = "ReadObject"
+				}
+				fams = append(fams, steady("steady-reader/"+bigFn+"-"+bn+"-then-"+sm.name, vrBig[bn], vrCall(bigFn), sm.doc, vrCall(sm.fn)))
+			}
+		}
+	}
+	// handlers that re-enter the library WITHOUT a Buffer for every member (each inner call sees
+	// the rest of the document): many small containers, skipped / traversed one by one
+	innerNil := map[string]func(d []byte) (int, error){
+		"SkipValue":     func(d []byte) (int, error) { return rjson.SkipValue(d, nil) },
+		"SkipValueFast": func(d []byte) (int, error) { return rjson.SkipValueFast(d, nil) },
+		"Valid+decline": func(d []byte) (int, error) { rjson.Valid(d[:1], nil); return 0, nil },
+		"HandleArrayValues": func(d []byte) (int, error) {
+			if d[0] != '[' {
+				return 0, nil
+			}
+			return rjson.HandleArrayValues(d, declArr, nil)
+		},
+		"HandleObjectValues": func(d []byte) (int, error) {
+			if d[0] != '{' {
+				return 0, nil
+			}
+			return rjson.HandleObjectValues(d, declObj, nil)
+		},
+	}
+	for _, in := range []string{"SkipValue", "SkipValueFast", "Valid+decline", "HandleArrayValues", "HandleObjectValues"} {
+		f := innerNil[in]
+		fams = append(fams,
+			one("HandleArrayValues+"+in+"(nil)-per-member/many-small-arrays", func(n int) string { return bigArray(n, "[1]") }, func(b []byte) {
+				rjson.HandleArrayValues(b, rjson.ArrayValueHandlerFunc(f), nil)
+			}),
+			one("HandleObjectValues+"+in+"(nil)-per-member/many-small-objects", func(n int) string { return "{" + strings.TrimSuffix(rep(`"k":{"a":[1]},`, n), ",") + "}" }, func(b []byte) {
+				rjson.HandleObjectValues(b, rjson.ObjectValueHandlerFunc(func(_, d []byte) (int, error) { return f(d) }), nil)
+			}),
+		)
+	}
 	// reused buffer
 	fams = append(fams, shapeFamily{"reused-buffer/deep-then-small", func(n int) measure {
 		var buf rjson.Buffer
@@ -395,7 +522,11 @@ func c20Shapes(r *eng.Run) {
 				ratios[fam] = fmt.Sprintf("%.2f", float64(m.Alloc)/float64(ms[i-1].Alloc))
 			}
 			if m.Alloc > m.bound() {
-				r.Violation(eng.Replay{Engine: "shapes", Entry: fam, Sig: "superlinear/" + fam, Expected: fmt.Sprintf("<= %d bytes (%d B/byte x %d bytes + %d B x %d calls)", m.bound(), c20PerByte, m.Len, c20PerCall, m.Calls),
+				exp := fmt.Sprintf("<= %d bytes (%d B/byte x %d bytes + %d B x %d calls)", m.bound(), c20PerByte, m.Len, c20PerCall, m.Calls)
+				if m.Limit > 0 {
+					exp = fmt.Sprintf("<= %d bytes for one small call in steady state (what it costs on an object without the large document in its past, plus %d)", m.Limit, steadySlack)
+				}
+				r.Violation(eng.Replay{Engine: "shapes", Entry: fam, Sig: "superlinear/" + fam, Expected: exp,
 					Got:   fmt.Sprintf("%d bytes allocated at n=%d (%.0f B per input byte)", m.Alloc, m.N, perByte),
 					Extra: map[string]interface{}{"family": fam, "n": m.N}})
 			}
